@@ -745,20 +745,6 @@ theorem C06_ligature_match_refines_spec (c : Ctx) (comps : List Nat) (x : Info) 
     rw [hpos (1 + j) (by omega)]
     congr 1; omega
 
-theorem applySubtables_singleton (recurse : Ctx → Nat → M (Ctx × Bool)) (full : Bool) (c : Ctx) (st : Subtable) :
-    applySubtables recurse full c [st] = applySubtable recurse full c st := by
-  simp only [applySubtables, bind, Except.bind]
-  cases applySubtable recurse full c st with
-  | error e => rfl
-  | ok r =>
-    obtain ⟨c', ok⟩ := r
-    cases ok <;> rfl
-
-theorem firstSubtable_singleton (f : Font) (level props lm : Nat) (gs : List G) (i : Nat) (st : Subtable) :
-    firstSubtable f level props lm gs i [st] = applySubtableAt f level props lm st gs i := by
-  simp only [firstSubtable]
-  cases applySubtableAt f level props lm st gs i <;> rfl
-
 /-- the hypotheses of the step theorems about one state of the forward scan: current glyph `x`, rest of the input `R` -/
 structure LigStepHyp (c : Ctx) (x : Info) (R : List Info) : Prop where
   inv : Inv c.buf
@@ -876,7 +862,7 @@ def exLigCtx : Ctx :=
 
 example : exLigLookup.subtables.all Subtable.isLigatureSt = true := by decide
 example : NoSkipFlags exLigLookup.props := by decide
-theorem exLig_short : LigsShort exLigLookup.subtables := by
+example : LigsShort exLigLookup.subtables := by
   intro st hst cov sets he ligs hl p hp
   simp only [exLigLookup, exLigSub, List.mem_singleton] at hst
   subst hst
